@@ -118,6 +118,8 @@ archive_read_open_filenames(struct archive *a, const char **filenames,
 	if (filenames)
 		filename = *(filenames++);
 
+	archive_check_magic(a, ARCHIVE_READ_MAGIC, ARCHIVE_STATE_NEW,
+	    "archive_read_open_filenames");
 	archive_clear_error(a);
 	do
 	{
@@ -171,6 +173,8 @@ archive_read_open_filenames_w(struct archive *a, const wchar_t **wfilenames,
 	if (wfilenames)
 		wfilename = *(wfilenames++);
 
+	archive_check_magic(a, ARCHIVE_READ_MAGIC, ARCHIVE_STATE_NEW,
+	    "archive_read_open_filenames_w");
 	archive_clear_error(a);
 	do
 	{
